@@ -27,6 +27,9 @@ func JSONValue(doc []byte) interface{} { return nil }
 // (used to read the version carried by an atomix IfVersion option).
 func FieldUint64(v interface{}, field string) uint64 { return 0 }
 
+// FieldString reads an (unexported) string field; path elements are separated by dots ("filter.Key").
+func FieldString(v interface{}, path string) string { return "" }
+
 // Param is a tier-dependent bound chosen by the check driver (a concrete constant in every run).
 func Param(name string) int { return 0 }
 
@@ -45,6 +48,9 @@ func Assert(c bool, label string) {}
 // HavocState fills the value pointed to by ptr (structs / arrays / bools / integers) with fresh symbolic leaves
 // named name.Field[i]... ; natively the leaves are read from the replay file under the same names.
 func HavocState(ptr interface{}, name string) {}
+
+// Yield lets every goroutine run until it blocks (engine: goroutine_park mode; natively a short sleep).
+func Yield() {}
 
 // Symbolic reports whether the harness is being executed by the engine (true) or natively (false).
 func Symbolic() bool { return true }
